@@ -57,7 +57,7 @@ _dkind_nofactory = st.sampled_from([None, "v"])
 _sigs = st.integers(0, len(INIT_SIGS) - 1)
 _deco_init = st.sampled_from([None, None, None, 1, 0])
 _extra = st.sampled_from(EXTRA_FLAGS)
-_nbases = st.sampled_from([0, 1, 1, 1, 2])
+_nbases = st.sampled_from([0, 1, 1, 1, 2, 2])
 
 
 @st.composite
@@ -133,6 +133,23 @@ def cases(draw, max_classes: int = 4, avoid_inherited_value: bool = False):
         "cv": draw(_i01),
         "classes": classes,
     }
+    return normalize(case, avoid_inherited_value)
+
+
+_deco_decorated = _deco_any.filter(lambda d: d is not None)
+
+
+@st.composite
+def diamond_cases(draw, avoid_inherited_value: bool = False):
+    """C0 <- C1, C0 <- C2, C3(C2, C1), all dataclasses: dataclasses merges, in reversed MRO, the *complete* field table of
+    every base, so C2 re-introduces C0's definition of a field that C1 re-declared. The bodies share the small name pool."""
+    classes = []
+    for i, bases in enumerate(([], [0], [0], [2, 1])):
+        deco = draw(_deco_decorated)
+        if i == 3 and deco["init"] == 0:
+            deco = {**deco, "init": None}
+        classes.append({"bases": bases, "deco": deco, "body": draw(_body_decorated)})
+    case = {"kind": "dc", "future": draw(_i01), "imp": draw(_i03), "cv": draw(_i01), "classes": classes}
     return normalize(case, avoid_inherited_value)
 
 
@@ -410,6 +427,18 @@ def stats(case: dict) -> tuple[bool, list[str]]:
         own_init = any(it["t"] == "init" for it in cls["body"])
         if len(cls["bases"]) > 1:
             labels.add("multiple-bases")
+            memo: dict = {}
+            anc = [set(c3(classes, b, memo) or [b]) for b in cls["bases"]]
+            shared = [j for j in anc[0] & anc[1] if tables[j] is not None and classes[j]["deco"] is not None]
+            if shared and d is not None:
+                labels.add("diamond-over-dataclass")
+                # a field of the shared ancestor re-declared in one branch only: CPython's per-base table merge decides
+                for j in shared:
+                    names = {it.get("n") for it in classes[j]["body"] if it["t"] in ("f", "iv")}
+                    branch = [{it.get("n") for k in a - {j} for it in classes[k]["body"] if it["t"] in ("f", "iv", "cv")} for a in anc]
+                    if (names & branch[0]) ^ (names & branch[1]):
+                        labels.add("diamond-with-one-sided-override")
+                        nontrivial = True
         if d is None:
             labels.add("plain-subclass-of-dataclass" if is_dc else "plain-class")
             if own_init:
